@@ -269,9 +269,23 @@ fn build_trak(m: &Movie, t: &MTrack, chunk_offsets: &[u64]) -> BoxT {
     let dur = track_duration(t);
     let tk_dur = (dur as u128 * m.timescale as u128 / t.timescale.max(1) as u128) as u64;
     let mut trak = BoxT::new(b"trak");
+    // track matrix: mostly unity; otherwise one of the rotations / flips real files carry
+    // (phones write 90 / 180 / 270 degrees), and one with an extreme entry
+    const ONE: i32 = 0x0001_0000;
+    const W: i32 = 0x4000_0000;
+    let matrix: [i32; 9] = match (t.id as usize + t.samples.len()) % 11 {
+        0 => [0, ONE, 0, -ONE, 0, 0, 0, 0, W],
+        1 => [-ONE, 0, 0, 0, -ONE, 0, 0, 0, W],
+        2 => [0, -ONE, 0, ONE, 0, 0, 0, 0, W],
+        3 => [-ONE, 0, 0, 0, ONE, 0, 0, 0, W],
+        4 => [0, i32::MIN, 0, ONE, 0, 0, 0, 0, W],
+        5 => [0, ONE, 0, i32::MIN, 0, 0, 0, 0, W],
+        _ => UNITY,
+    };
     trak.push(enc_tkhd(&TkhdF {
         version: if tk_dur > u32::MAX as u64 { 1 } else { 0 },
         track_id: t.id,
+        matrix,
         duration: tk_dur,
         width: (t.width as u32) << 16,
         height: (t.height as u32) << 16,
@@ -281,7 +295,20 @@ fn build_trak(m: &Movie, t: &MTrack, chunk_offsets: &[u64]) -> BoxT {
         trak.push(BoxT::container(b"edts", vec![enc_elst(0, 0, &[ElstEntryF { segment_duration: tk_dur.min(u32::MAX as u64), media_time: 0, rate_int: 1, rate_frac: 0 }])]));
     }
     let mut mdia = BoxT::new(b"mdia");
-    mdia.push(enc_mdhd(&MdhdF { version: if dur > u32::MAX as u64 { 1 } else { 0 }, timescale: t.timescale, duration: dur, lang: t.lang, ..Default::default() }));
+    // media header duration: usually the sum of the deltas; some files carry a rounded, a
+    // stale, a zero or an "unknown" (all ones) value - sample timing comes from the tables alone
+    let mdhd_dur = if dur > u32::MAX as u64 {
+        dur
+    } else {
+        match (t.id as usize * 3 + t.samples.len()) % 13 {
+            0 => 0,
+            1 => dur + 250,
+            2 => dur.saturating_sub(dur / 3 + 1),
+            3 => u32::MAX as u64,
+            _ => dur,
+        }
+    };
+    mdia.push(enc_mdhd(&MdhdF { version: if dur > u32::MAX as u64 { 1 } else { 0 }, timescale: t.timescale, duration: mdhd_dur, lang: t.lang, ..Default::default() }));
     // handler names: mostly an ordinary one; some tracks carry a name that looks like a
     // QuickTime counted string (first byte == number of bytes that follow), with an ASCII or a
     // two-byte first character - a conforming C string all the same
@@ -949,6 +976,21 @@ fn build_fragments(fm: &FragMovie, origin: u64, xf: &dyn Fn(&mut BoxT)) -> (Vec<
     (out, expect)
 }
 
+thread_local! {
+    static HYBRID: std::cell::Cell<bool> = std::cell::Cell::new(false);
+}
+
+/// Hybrid movies (a movie box with samples of its own AND fragments) are built only on request
+/// (C09): how such a file's samples are numbered once a prefix has lost the fragments is not
+/// something the other properties' statements settle.
+pub fn allow_hybrid(on: bool) {
+    HYBRID.with(|h| h.set(on));
+}
+
+fn hybrid_allowed() -> bool {
+    HYBRID.with(|h| h.get())
+}
+
 pub fn build_fragmented(fm: &FragMovie) -> BuiltFrag {
     build_fragmented_x(fm, &|_| {}, &|_| {})
 }
@@ -958,15 +1000,29 @@ pub fn build_fragmented(fm: &FragMovie) -> BuiltFrag {
 pub fn build_fragmented_x(fm: &FragMovie, init_xf: &dyn Fn(&mut Vec<BoxT>), moof_xf: &dyn Fn(&mut BoxT)) -> BuiltFrag {
     // init segment: ftyp + moov (empty sample tables) with mvex
     let mut init_movie = fm.movie.clone();
-    for t in init_movie.tracks.iter_mut() {
+    // one movie in nine (both optional-box flags set) is a "hybrid": its movie box is not empty,
+    // the sample tables of every track list two samples of their own in one chunk (what muxers
+    // write without the empty-moov option). For a track that has track fragments the samples
+    // are those of its runs - "the sample count is the sum of the run counts" - so nothing in
+    // the expectations changes.
+    let hybrid = fm.styp && fm.with_mehd && hybrid_allowed();
+    // (only tracks that have at least one track fragment: a track without any is read through
+    // its sample tables, and its own samples would then be its samples)
+    let has_traf: Vec<bool> = (0..init_movie.tracks.len()).map(|ti| fm.fragments.iter().any(|f| f.runs.iter().any(|r| r.track == ti))).collect();
+    for (ti, t) in init_movie.tracks.iter_mut().enumerate() {
         t.samples.clear();
         t.layout.chunks.clear();
         t.layout.extra_breaks.clear();
         t.layout.fixed_stsz = false;
         t.layout.ctts = CttsMode::Absent;
         t.layout.stss_present = false;
+        if hybrid && has_traf[ti] {
+            t.samples = vec![MSample { size: 3, fill: 1, delta: 10, cts: 0, sync: true }, MSample { size: 5, fill: 2, delta: 10, cts: 0, sync: true }];
+            t.layout.chunks = vec![2];
+            t.layout.extra_breaks = vec![false];
+        }
     }
-    let offsets: Vec<Vec<u64>> = init_movie.tracks.iter().map(|_| Vec::new()).collect();
+    let offsets: Vec<Vec<u64>> = init_movie.tracks.iter().enumerate().map(|(ti, _)| if hybrid && has_traf[ti] { vec![0u64] } else { Vec::new() }).collect();
     let trexs: Vec<TrexF> = fm
         .movie
         .tracks
